@@ -456,6 +456,10 @@ def main(tier: str, replay: str | None = None):
 def _main(run: Run, tier: str, rnd: random.Random, workdir: str, ext_so):
     t0 = time.time()
     domains = DOMAINS[tier]
+    only = [d for d in os.environ.get("C15_DOMAINS", "").split(",") if d]      # debugging aid: restrict to some domains
+    if only:
+        domains = {k: v for k, v in domains.items() if k in only}
+        run.note(f"restricted to domains {sorted(domains)} (C15_DOMAINS): not a full run")
     ncpu = os.cpu_count() or 4
     # ---- 1. TLC: the property on the model, every case enumerated ---------------------------------------------------
     with ThreadPoolExecutor(max_workers=6) as pool:
@@ -487,12 +491,12 @@ def _main(run: Run, tier: str, rnd: random.Random, workdir: str, ext_so):
     bugs_job.result()
     if tier == "thorough":         # TLC's own action coverage (costs ~40 % CPU: thorough only; quick counts the validated events below)
         never = [a for a in ACTIONS if not fired.get(a)]
-        if never:
+        if never and not only:
             die(f"C15: vacuous model: action(s) {never} never taken in any domain")
         run.extra["action_coverage"] = {a: fired[a] for a in ACTIONS}
     run.extra["cases_per_domain"] = {k: len(v) for k, v in per_domain.items()}
     run.extra["cases_with_order_dependent_terminal_state"] = sum(1 for v in spec.values() if len(v) > 1)
-    if len(spec) < 1000:
+    if len(spec) < 1000 and not only:
         die(f"C15: only {len(spec)} cases enumerated - vacuous")
     t_tlc = time.time() - t0
     # ---- 2. replay every case on the real code ------------------------------------------------------------------------
@@ -579,7 +583,7 @@ def _main(run: Run, tier: str, rnd: random.Random, workdir: str, ext_so):
                 seen_ev[name] = seen_ev.get(name, 0) + 1
     seen_ev["LoadMain"] = seen_ev.pop("Load", 0)
     never = [a for a in ACTIONS if not seen_ev.get(a)]
-    if never and not run.violations:
+    if never and not run.violations and not os.environ.get("C15_DOMAINS"):
         die(f"C15: vacuous binding: no accepted real trace contains the action(s) {never}")
     run.extra["validated_events_per_action"] = {a: seen_ev.get(a, 0) for a in ACTIONS}
     run.extra.update(traces_recorded=len(lines), traces_accepted=accepted, traces_rejected=len(rejected), events_validated=sum(len(ln["events"]) for ln in lines))
